@@ -1,5 +1,6 @@
 import TxdbusModel.Net.Compose
 import TxdbusModel.Proto.Framing
+import TxdbusModel.Proto.FramesSpec
 /-
 C11 - the BYTE-LEVEL network.
 
@@ -133,6 +134,18 @@ def BNet.init {V α : Type} (n : Nat) (first : Nat → Nat) (a : α) : BNet V α
   { n := n, cl := fun j => Client.init (first j), upWire := fun _ => [], downWire := fun _ => [],
     busRx := fun _ => { St.init false a with authenticated := true, firstByte := false },
     cliRx := fun _ => { St.init true a with authenticated := true },
+    dropped := [], sent := [] }
+
+/-- BEFORE the end of the handshake: every protocol instance is still in LINE mode (the bus's instances have had their
+NUL byte; whatever lines came before are reflected in the authenticator state `a`), and each wire starts with the
+remaining authentication lines `hsUp c` / `hsDown c` - the bytes `Spec.unlines (lines ++ [last])`, whose last line
+makes the receiving authenticator report success (`BEGIN` for the bus, `OK …` for a client).  Message bytes written
+afterwards queue up BEHIND them, so a read may hand the receiver the final handshake line and message bytes together
+(the hand-off of `dataReceived`, C04 `handoff`).  Who writes these lines and when is C06/C07's. -/
+def BNet.initH {V α : Type} (n : Nat) (first : Nat → Nat) (a : α) (hsUp hsDown : Nat → Bytes) : BNet V α :=
+  { n := n, cl := fun j => Client.init (first j), upWire := hsUp, downWire := hsDown,
+    busRx := fun _ => { St.init false a with firstByte := false },
+    cliRx := fun _ => St.init true a,
     dropped := [], sent := [] }
 
 /-- nothing on any wire, nothing buffered by any receiver, no unfired Deferred -/
